@@ -14,7 +14,7 @@ for d in sorted(glob.glob(os.path.join(V, "seeded", "C*-agent*"))):
     others = sorted(k for k, v in mat.items() if v == "VIOLATION" and k != m["property"])
     note = m.get("note", "")
     first = "yes"
-    if note.startswith("missed") or "first version caught it only" in note:
+    if note.startswith("missed") or "first version caught it only" in note or note.startswith("detected after"):
         first = "no -> check strengthened"
     if note.startswith("NOT judged"):
         first = "not judged: outside the property's input domain (see text)"
